@@ -87,53 +87,91 @@ def trivial_programs():
     yield (1, (2, 2), (), (1, 2))
 
 
-def text_of(spec) -> str:
-    k, cs, bins, rets = spec
+CMPI = ("eq", "ne", "slt", "sle", "sgt", "sge", "ult", "ule", "ugt", "uge")
+SELECT = len(BINS) + len(CMPI)     # op codes: 0..3 BINS, 4..13 arith.cmpi <CMPI[o-4]>, 14 arith.select
+FUNC_NAMES = ("f", "g")
+
+
+def op_name(o: int) -> str:
+    return BINS[o] if o < len(BINS) else ("arith.cmpi" if o < SELECT else "arith.select")
+
+
+def value_types(spec) -> list[str]:
+    k, cs, ops, _ = spec
+    ts = ["i32"] * (k + len(cs))
+    for o, *xs in ops:
+        ts.append("i32" if o < len(BINS) else ("i1" if o < SELECT else ts[xs[1]]))
+    return ts
+
+
+def text_of(spec, name: str = "f") -> str:
+    k, cs, ops, rets = spec
+    ts = value_types(spec)
     names = [f"%a{i}" for i in range(k)]
     lines = []
     for c in cs:
         names.append(f"%v{len(names)}")
         lines.append(f"  {names[-1]} = arith.constant {c} : i32")
-    for o, i, j in bins:
+    for o, *xs in ops:
         nm = f"%v{len(names)}"
-        lines.append(f"  {nm} = {BINS[o]} {names[i]}, {names[j]} : i32")
+        if o < len(BINS):
+            lines.append(f"  {nm} = {BINS[o]} {names[xs[0]]}, {names[xs[1]]} : i32")
+        elif o < SELECT:
+            lines.append(f"  {nm} = arith.cmpi {CMPI[o - len(BINS)]}, {names[xs[0]]}, {names[xs[1]]} : {ts[xs[0]]}")
+        else:
+            lines.append(f"  {nm} = arith.select {names[xs[0]]}, {names[xs[1]]}, {names[xs[2]]} : {ts[xs[1]]}")
         names.append(nm)
     args = ", ".join(f"{names[i]}: i32" for i in range(k))
-    rt = ", ".join("i32" for _ in rets)
+    rt = ", ".join(ts[r] for r in rets)
     lines.append(f"  func.return {', '.join(names[r] for r in rets)} : {rt}")
-    return f"func.func @f({args}) -> ({rt}) {{\n" + "\n".join(lines) + "\n}"
+    return f"func.func @{name}({args}) -> ({rt}) {{\n" + "\n".join(lines) + "\n}"
 
 
-def build(spec):
+def text_of_case(specs) -> str:
+    return "\n".join(text_of(sp, FUNC_NAMES[i]) for i, sp in enumerate(specs))
+
+
+def build(specs):
+    """a module with one function per spec (@f, @g)"""
     from xdsl.dialects import arith, builtin, func
     from xdsl.ir import Block, Region
 
-    k, cs, bins, rets = spec
     i32 = builtin.i32
     cls = (arith.AddiOp, arith.MuliOp, arith.SubiOp, arith.DivUIOp)
-    block = Block(arg_types=[i32] * k)
-    vals = list(block.args)
-    for c in cs:
-        op = arith.ConstantOp(builtin.IntegerAttr(c, i32))
-        block.add_op(op)
-        vals.append(op.result)
-    for o, i, j in bins:
-        op = cls[o](vals[i], vals[j])
-        block.add_op(op)
-        vals.append(op.result)
-    block.add_op(func.ReturnOp(*[vals[r] for r in rets]))
-    f = func.FuncOp("f", ([i32] * k, [i32] * len(rets)), Region(block))
-    return builtin.ModuleOp([f])
+    funcs = []
+    for fi, (k, cs, ops, rets) in enumerate(specs):
+        block = Block(arg_types=[i32] * k)
+        vals = list(block.args)
+        for c in cs:
+            op = arith.ConstantOp(builtin.IntegerAttr(c, i32))
+            block.add_op(op)
+            vals.append(op.result)
+        for o, *xs in ops:
+            if o < len(BINS):
+                op = cls[o](vals[xs[0]], vals[xs[1]])
+            elif o < SELECT:
+                op = arith.CmpiOp(vals[xs[0]], vals[xs[1]], CMPI[o - len(BINS)])
+            else:
+                op = arith.SelectOp(vals[xs[0]], vals[xs[1]], vals[xs[2]])
+            block.add_op(op)
+            vals.append(op.results[0])
+        block.add_op(func.ReturnOp(*[vals[r] for r in rets]))
+        funcs.append(func.FuncOp(FUNC_NAMES[fi], ([i32] * k, [vals[r].type for r in rets]), Region(block)))
+    return builtin.ModuleOp(funcs)
 
 
-def shape_class(spec) -> str:
-    k, cs, bins, rets = spec
+def shape_class(specs) -> str:
+    if len(specs) > 1:
+        return "two-functions"
+    k, cs, ops, rets = specs[0]
+    if any(o >= len(BINS) for o, *_ in ops):
+        return "property-twins"
     if len(rets) > 1:
         return "multi-result"
     used: dict[int, int] = {}
-    for _, i, j in bins:
-        used[i] = used.get(i, 0) + 1
-        used[j] = used.get(j, 0) + 1
+    for _, *xs in ops:
+        for x in xs:
+            used[x] = used.get(x, 0) + 1
     if any(v > 1 for v in used.values()):
         return "shared-subexpression"
     if cs:
@@ -144,9 +182,9 @@ def shape_class(spec) -> str:
 # ======================================================================================
 # independent views of a function body
 # ======================================================================================
-def the_func(module):
+def the_func(module, name: str = "f"):
     for op in module.body.block.ops:
-        if op.name == "func.func" and op.properties["sym_name"].data == "f":
+        if op.name == "func.func" and op.properties["sym_name"].data == name:
             return op
     return None
 
@@ -528,15 +566,15 @@ def shipped_matchers():
 # an independent syntactic matcher on program specs (only used to decide which runs are worth making)
 # ======================================================================================
 def value_numbers(spec) -> list:
-    k, cs, bins, _ = spec
+    k, cs, ops, _ = spec
     vn: list = [("a", i) for i in range(k)] + [("c", c) for c in cs]
-    for o, i, j in bins:
-        vn.append((BINS[o], vn[i], vn[j]))
+    for o, *xs in ops:
+        vn.append((op_name(o), o, *[vn[x] for x in xs]))
     return vn
 
 
 def matches_somewhere(spec, lhs) -> bool:
-    k, cs, bins, _ = spec
+    k, cs, ops, _ = spec
     vn = value_numbers(spec)
 
     def m(t, idx, bind) -> bool:
@@ -555,10 +593,10 @@ def matches_somewhere(spec, lhs) -> bool:
                 if nm == "value" and a is not None and getattr(getattr(a, "value", None), "data", None) != cs[idx - k]:
                     return False
             return True
-        o, i, j = bins[idx - k - len(cs)]
-        if BINS[o] != name or len(operands) != 2:
+        o, *xs = ops[idx - k - len(cs)]
+        if op_name(o) != name or len(operands) != len(xs) or o >= len(BINS):
             return False
-        return m(operands[0], i, bind) and m(operands[1], j, bind)
+        return all(m(t2, x, bind) for t2, x in zip(operands, xs))
 
     return any(m(lhs, idx, {}) for idx in range(k, len(vn)))
 
@@ -606,29 +644,45 @@ def pipeline_name(pipe) -> str:
         return "identity-pipeline"
     if pipe[0] == "no-costs":
         return "identity-pipeline-no-costs"
-    return "apply-eqsat-pdl-interp" if pipe[1] == "native" else "apply-eqsat-pdl-interp(shipped-matcher)"
+    return {"native": "apply-eqsat-pdl-interp", "native-reversed": "apply-eqsat-pdl-interp",
+            "shipped": "apply-eqsat-pdl-interp(shipped-matcher)"}[pipe[1]]
 
 
-def run_pipeline(st: Stats, spec, pipe, src) -> str:
-    """pipe = ("identity",) | ("no-costs",) | ("rules", matcher variant, rule set label, cap) -> outcome label"""
-    from xdsl.transforms.apply_eqsat_pdl_interp import apply_eqsat_pdl_interp
+def pipe_cost(pipe) -> str:
+    if pipe[0] == "identity":
+        return pipe[1] if len(pipe) > 1 else "default=1"
+    if pipe[0] == "rules":
+        return pipe[4] if len(pipe) > 4 else "default=1"
+    return "none"
+
+
+def cost_pass(cost: str):
     from xdsl.transforms.eqsat_add_costs import EqsatAddCostsPass
+
+    if cost == "default=1":
+        return EqsatAddCostsPass(default=1)
+    return EqsatAddCostsPass(cost_file=cost_file(cost[len("file:"):]), default=1)
+
+
+def run_pipeline(st: Stats, specs, pipe, src) -> str:
+    """pipe = ("identity", cost) | ("no-costs",) | ("rules", matcher variant, rule set label, cap, cost) -> outcome"""
+    from xdsl.transforms.apply_eqsat_pdl_interp import apply_eqsat_pdl_interp
     from xdsl.transforms.eqsat_create_eclasses import EqsatCreateEclassesPass
     from xdsl.transforms.eqsat_extract import EqsatExtractPass
-    from mc import refsem as R
 
     ctx = _ctx()
     kind = pipe[0]
     pname = pipeline_name(pipe)
     label = cap = matcher = None
     if kind == "rules":
-        _, variant, label, cap = pipe
+        variant, label, cap = pipe[1:4]
         matcher = G["sets"][label]["matchers"][variant]
-    wit = {"program": text_of(spec), "spec": [spec[0], list(spec[1]), [list(b) for b in spec[2]], list(spec[3])],
+    wit = {"program": text_of_case(specs),
+           "specs": [[sp[0], list(sp[1]), [list(b) for b in sp[2]], list(sp[3])] for sp in specs],
            "pipeline": list(pipe)}
     if label is not None:
         wit["rules"] = label
-    module = build(spec)
+    module = build(specs)
     fired = [False]
 
     def egraph_size():
@@ -648,15 +702,13 @@ def run_pipeline(st: Stats, spec, pipe, src) -> str:
     if kind == "rules":
         stages.append(("apply-eqsat-pdl-interp", apply_rules))
     if kind != "no-costs":
-        stages.append(("eqsat-add-costs", lambda: EqsatAddCostsPass(default=1).apply(ctx, module)))
+        stages.append(("eqsat-add-costs", lambda: cost_pass(pipe_cost(pipe)).apply(ctx, module)))
     stages.append(("eqsat-extract", lambda: EqsatExtractPass().apply(ctx, module)))
 
     for si, (sname, fn) in enumerate(stages):
         st.transitions += 1
         try:
             fn()
-        except _CaseTimeout:
-            raise
         except Exception as e:  # noqa: BLE001
             if _is_diagnostic(e):   # a diagnostic: the tool reports that it cannot do this
                 if kind != "rules":
@@ -680,23 +732,29 @@ def run_pipeline(st: Stats, spec, pipe, src) -> str:
 
     st.executions += 1
     tag = " rule-fired" if fired[0] else ""
-    fn = the_func(module)
-    if fn is None:
-        st.violate(f"C28|{pname}|does-not-verify", "the function disappeared", wit)
+    fns = [the_func(module, FUNC_NAMES[i]) for i in range(len(specs))]
+    if any(f is None for f in fns):
+        st.violate(f"C28|{pname}|does-not-verify", "a function disappeared", wit)
         return "function-lost"
-    extracted = str(fn)
+    extracted = "\n".join(str(f) for f in fns)
     wit["extracted"] = extracted[:1500]
-    ckey = (kind, extracted)
-    if kind == "rules":
-        ckey = ("rules", extracted)
+    ckey = ("rules" if kind == "rules" else kind, extracted)
     cached = src["cache"].get(ckey)
     if cached is None:
-        cached = src["cache"][ckey] = judge(st, fn, module, kind, src)
-    # (an extracted text already judged for this program and pipeline kind is not judged again)
+        # (an extracted text already judged for this program and pipeline kind is not judged again)
+        verdicts: list[str] = []
+        detail: dict = {}
+        for i, f in enumerate(fns):
+            v, d = judge(st, f, module, kind, src["functions"][i], FUNC_NAMES[i])
+            verdicts += [x for x in v if x not in verdicts and not (x.startswith("ok") and verdicts)]
+            if d and not detail:
+                detail = {**d, "function": FUNC_NAMES[i]}
+        bad = [v for v in verdicts if not v.startswith("ok")]
+        cached = src["cache"][ckey] = (bad or verdicts[:1], detail)
     verdicts, detail = cached
     for v in verdicts:
         if not v.startswith("ok"):
-            _flag(st, v, pipe, spec, {**wit, **detail})
+            _flag(st, v, pipe, specs, {**wit, **detail})
     return "+".join(verdicts) + tag
 
 
@@ -730,7 +788,7 @@ def stable_toposort(fn) -> bool:
     return True
 
 
-def judge(st: Stats, fn, module, kind: str, src) -> tuple[list[str], dict]:
+def judge(st: Stats, fn, module, kind: str, src, fname: str = "f") -> tuple[list[str], dict]:
     from mc import refsem as R
 
     left = eqsat_ops(fn)
@@ -743,16 +801,16 @@ def judge(st: Stats, fn, module, kind: str, src) -> tuple[list[str], dict]:
         else:
             return ["leaves-eqsat-ops"], {"left": left}
     if use_before_def(fn) is not None:
-        verdicts.append("use-before-def")
-        if not stable_toposort(fn):     # judge the results of the program MLIR would have accepted
+        if not stable_toposort(fn):     # a value that depends on itself: the program cannot be executed at all
             return ["cyclic-use"], {}
+        verdicts.append("use-before-def")   # results are judged on the reordered program MLIR would have accepted
     kw = {}
     if transparent:
         kw["unknown_op"] = lambda mach, op, vals: list(vals[:1]) if op.name == "equivalence.class" else None
     for xs, ref in src["results"]:
         st.evaluations += 1
         try:
-            got, _ = R.run_func(module, list(xs), "f", **kw)
+            got, _ = R.run_func(module, list(xs), fname, **kw)
         except R.RefsemError as e:
             got = f"refsem:{type(e).__name__}"
         if got is R.POISON or isinstance(got, str) or not R.results_equal(got, ref):
@@ -779,11 +837,15 @@ def _flag(st: Stats, verdict: str, pipe, spec, wit) -> None:
         label = shape_class(spec)
     if verdict == "leaves-eqsat-ops":
         st.violate(f"C28|{pname}|leaves-eqsat-ops", f"eqsat ops remain after eqsat-extract: {wit.get('left')}", wit)
-    elif verdict in ("use-before-def", "cyclic-use"):
+    elif verdict == "use-before-def":
         # one root cause whatever the rules: extraction leaves the chosen op where it stood
-        st.violate(f"C28|eqsat-extract|{verdict}",
+        st.violate("C28|eqsat-extract|use-before-def",
                    f"{pipeline_name(pipe)}: the extracted program uses a value before its definition "
                    "(invalid in a func body; xDSL's verifier does not check dominance)", wit)
+    elif verdict == "cyclic-use":
+        st.violate("C28|eqsat-extract|cyclic-use",
+                   f"{pipeline_name(pipe)}, costs {pipe_cost(pipe)}: a value of the extracted program depends on itself "
+                   "(a self-referential e-node was selected): the program cannot be executed", wit)
     elif verdict == "wrong-result":
         st.violate(f"C28|{pname}|{label}|wrong-result",
                    f"extracted program returns {wit.get('got')} instead of {wit.get('expected')} on {wit.get('input')}", wit)
@@ -792,54 +854,78 @@ def _flag(st: Stats, verdict: str, pipe, spec, wit) -> None:
                    f"{pname}: without rules the extracted program is not the source up to op order", wit)
 
 
-def source_info(spec):
+def source_info(specs):
     from mc import refsem as R
 
-    module = build(spec)
-    results = []
-    for xs in itertools.product(BOUNDARY, repeat=spec[0]):
-        ref, _ = R.run_func(module, list(xs), "f")
-        if ref is R.POISON:
-            continue
-        results.append((xs, ref))
-    form, _ = tree_form(the_func(module))
-    return {"results": results, "form": form, "cache": {}, "ninputs": len(BOUNDARY) ** spec[0]}
+    module = build(specs)
+    fns = []
+    for i, spec in enumerate(specs):
+        results = []
+        for xs in itertools.product(BOUNDARY, repeat=spec[0]):
+            ref, _ = R.run_func(module, list(xs), FUNC_NAMES[i])
+            if ref is R.POISON:
+                continue
+            results.append((xs, ref))
+        form, _ = tree_form(the_func(module, FUNC_NAMES[i]))
+        fns.append({"results": results, "form": form, "ninputs": len(BOUNDARY) ** spec[0]})
+    return {"functions": fns, "cache": {}}
 
 
-def pipelines_for(spec):
-    """identity, no-costs; PROBE: every single rule whose root op name occurs in the program, cap 1 (a matcher that
-    matches where the rule does not apply shows here); FULL: every rule set one of whose rules matches the source
-    syntactically (independent matcher above), every matcher variant, caps 1..3."""
-    yield ("identity",)
-    yield ("no-costs",)
-    names = {BINS[o] for o, _, _ in spec[2]}
-    if spec[1]:
+def pipelines_for(case):
+    """family "main": identity, no-costs; PROBE: every single rule whose root op name occurs in the program, cap 1 (a
+    matcher that matches where the rule does not apply shows here); FULL: every rule set one of whose rules matches the
+    source syntactically (independent matcher above), every matcher variant, caps 1..3 -- all with costs default=1.
+    family "costs": identity and the FULL sets at the largest cap under every cost file.
+    family "pairs" (two functions): identity and the FULL sets (a rule matching in either function) at the largest cap."""
+    family, specs = case
+    names = {op_name(o) for sp in specs for o, *_ in sp[2]}
+    if any(sp[1] for sp in specs):
         names.add("arith.constant")
-    hit = {lb for lb in G["rules"] if G["rules"][lb]["root"] in names and matches_somewhere(spec, G["rules"][lb]["lhs"])}
+    hit = {lb for lb, r in G["rules"].items() if r["root"] in names and any(matches_somewhere(sp, r["lhs"]) for sp in specs)}
+    if family == "main":
+        costs = ("default=1",)
+        caps = G["caps"]
+        yield ("identity", "default=1")
+        yield ("no-costs",)
+    elif family == "costs":
+        costs = tuple(f"file:{c}" for c in G["costs"])
+        caps = G["caps"][-1:]
+        for c in costs:
+            yield ("identity", c)
+    else:
+        costs = ("default=1",)
+        caps = G["caps"][-1:]
+        yield ("identity", "default=1")
     for label, s in G["sets"].items():
         full = any(r in hit for r in s["rules"])
-        probe = len(s["rules"]) == 1 and G["rules"][s["rules"][0]]["root"] in names
+        probe = family == "main" and len(s["rules"]) == 1 and G["rules"][s["rules"][0]]["root"] in names
         if not (full or probe):
             continue
         for variant, m in s["matchers"].items():
             if isinstance(m, str):
                 continue
-            for cap in (G["caps"] if full else G["caps"][:1]):
-                yield ("rules", variant, label, cap)
+            if variant == "native-reversed" and not (family == "costs" or (G.get("reversed_in_main") and full)):
+                continue
+            for cap in (caps if full else caps[:1]):
+                if variant == "native-reversed" and cap != caps[-1]:
+                    continue
+                for c in costs:
+                    yield ("rules", variant, label, cap, c)
 
 
-def check_program(st: Stats, spec, only=None) -> None:
-    src = source_info(spec)
+def check_program(st: Stats, case, only=None) -> None:
+    family, specs = case
+    src = source_info(specs)
     st.states += 1
-    if not src["results"]:
+    if any(not f["results"] for f in src["functions"]):
         st.outcomes["source undefined on every boundary input"] += 1
         return
-    st.bump("source_inputs_excluded_as_undefined", src["ninputs"] - len(src["results"]))
-    for pipe in ([only] if only is not None else pipelines_for(spec)):
+    st.bump("source_inputs_excluded_as_undefined", sum(f["ninputs"] - len(f["results"]) for f in src["functions"]))
+    for pipe in ([only] if only is not None else pipelines_for(case)):
         signal.signal(signal.SIGALRM, _alarm)
         signal.alarm(CASE_TIMEOUT_S)
         try:
-            out = run_pipeline(st, spec, pipe, src)
+            out = run_pipeline(st, specs, pipe, src)
         except _CaseTimeout:
             out = "timeout"
             st.cap(f"a pipeline run exceeded {CASE_TIMEOUT_S}s")
@@ -848,7 +934,9 @@ def check_program(st: Stats, spec, only=None) -> None:
         if "rule-fired" in out:
             st.nontrivial += 1
         kindl = pipe[0] if pipe[0] != "rules" else f"rules/{pipe[1]}/cap{pipe[3]}"
-        st.outcomes[f"{kindl}: {out}"] += 1
+        if pipe_cost(pipe).startswith("file:"):
+            kindl += "/cost-file"
+        st.outcomes[f"{family}: {kindl}: {out}"] += 1
         if pipe[0] == "rules":
             d = st.extra.setdefault("per_rule_set", {})
             for what in ("runs", "fired")[:2 if "rule-fired" in out else 1]:
@@ -861,10 +949,11 @@ def _shard(task) -> Stats:
     st = Stats()
     progs = G["programs"]
     for idx in range(lo, hi):
-        spec = progs[idx]
-        check_program(st, spec)
+        case = progs[idx]
+        check_program(st, case)
         if (idx + seed) % 977 == 0:
-            st.sample({"program": text_of(spec), "pipelines": ["/".join(map(str, p)) for p in pipelines_for(spec)][:12]})
+            st.sample({"family": case[0], "program": text_of_case(case[1]),
+                       "pipelines": ["/".join(map(str, p)) for p in pipelines_for(case)][:12]})
     return st
 
 
@@ -913,53 +1002,156 @@ def prepare(st: Stats | None = None) -> None:
             s["defective"][variant] = bool(missing)
             if missing and st is not None:
                 st.bump(f"matchers_without_the_rule's_attribute_value_check[{variant}]")
+    # pattern order is a dimension of its own for pairs (which rule is tried / applied first)
+    for label, s in sets.items():
+        if len(s["rules"]) == 2 and "native" in s["matchers"]:
+            s["matchers"]["native-reversed"] = native_matcher([rules[x]["text"] for x in reversed(s["rules"])])
+            s["defective"]["native-reversed"] = s["defective"].get("native", False)
     G["rules"] = rules
     G["sets"] = sets
     G["caps"] = (1, 2, 3)
+    G["costs"] = cost_configs(quick=True)
+
+
+FREE_OPS = ("arith.addi", "arith.muli", "arith.subi")
+
+
+def cost_configs(quick: bool) -> dict[str, dict[str, int]]:
+    """cost files (always used together with default=1): the one shipped in the corpus, and every cost model over
+    {0, 1} for arith.constant / addi / muli / subi (quick: those in which constants are free)"""
+    import json
+    import os
+    from mc import corpus
+
+    out: dict[str, dict[str, int]] = {}
+    path = os.path.join(corpus.CORPUS_ROOT, "tests/filecheck/transforms/eqsat-add-costs/costs.json")
+    if os.path.exists(path):
+        with open(path) as f:
+            out["corpus:costs.json"] = json.load(f)
+    for cfree in ((True,) if quick else (True, False)):
+        for bits in itertools.product((0, 1), repeat=len(FREE_OPS)):
+            d = {"arith.constant": 0 if cfree else 1}
+            d.update({nm: b for nm, b in zip(FREE_OPS, bits)})
+            if all(v == 1 for v in d.values()):
+                continue    # = default=1
+            out["free:" + "+".join(k.split(".")[1] for k, v in d.items() if v == 0)] = d
+    return out
+
+
+def cost_file(name: str) -> str:
+    import json
+    import os
+    import tempfile
+
+    if "costdir" not in G:
+        G["costdir"] = tempfile.mkdtemp(prefix="verif-c28-")
+    path = os.path.join(G["costdir"], name.replace(":", "_").replace("+", "_") + ".json")
+    if not os.path.exists(path):
+        with open(path, "w") as f:
+            json.dump(G["costs"][name], f)
+    return path
+
+
+def cleanup() -> None:
+    import shutil
+
+    if "costdir" in G:
+        shutil.rmtree(G.pop("costdir"), ignore_errors=True)
+
+
+def twin_programs(quick: bool):
+    """f(a, b): t = a+0 | a*1 (an identity a rule can fire on), two arith.cmpi that differ ONLY in the predicate
+    property on the same operands (t, b) | (b, t) [thorough: also (t, a), (t, t)], observed directly (two i1 results)
+    or through two arith.select; every unordered (thorough: ordered) pair of distinct predicates."""
+    nb = len(BINS)
+    arrangements = ((3, 1), (1, 3)) if quick else ((3, 1), (1, 3), (3, 0), (3, 3))
+    pairs = itertools.combinations(range(10), 2) if quick else itertools.permutations(range(10), 2)
+    for p1, p2 in pairs:
+        for mk, c in ((0, 0), (1, 1)):
+            for x, y in arrangements:
+                base = ((mk, 0, 2), (nb + p1, x, y), (nb + p2, x, y))
+                yield (2, (c,), base, (4, 5))
+                yield (2, (c,), base + ((SELECT, 4, 0, 1), (SELECT, 5, 0, 1)), (6, 7))
+
+
 
 
 def enumerate_programs(quick: bool) -> tuple[list, dict]:
+    """-> list of cases (family, (spec, ...))"""
     progs = list(trivial_programs())
     if quick:
         bounds = {"args": [1, 2], "max_ops": 3, "constants": list(CONSTS_Q), "binary_ops": list(BINS[:3]),
                   "three_op_programs": "1 argument: all; 2 arguments: those with a constant",
                   "extra_returned_value_variants": "programs with <= 2 ops"}
+        consts, nb = CONSTS_Q, 3
         for k in (1, 2):
-            progs += list(programs(k, 2, CONSTS_Q, 3, True))
-            progs += [p for p in programs(k, 3, CONSTS_Q, 3, False) if len(p[1]) + len(p[2]) == 3 and (k == 1 or p[1])]
+            progs += list(programs(k, 2, consts, nb, True))
+            progs += [p for p in programs(k, 3, consts, nb, False) if len(p[1]) + len(p[2]) == 3 and (k == 1 or p[1])]
+        small = [p for k in (1, 2) for p in programs(k, 2, consts, nb, False)]
     else:
         bounds = {"args": [1, 2], "max_ops": 4, "constants": list(CONSTS_T), "binary_ops": list(BINS),
                   "four_op_programs": "constants {0,1}, ops {addi,muli,subi}: 1 argument with 2 constants, 1 argument "
                                       "with 1 constant and a single returned value, 2 arguments with 2 constants",
                   "extra_returned_value_variants": "programs with <= 2 ops"}
+        consts, nb = CONSTS_T, 4
         for k in (1, 2):
-            progs += list(programs(k, 2, CONSTS_T, 4, True))
-            progs += [p for p in programs(k, 3, CONSTS_T, 4, False) if len(p[1]) + len(p[2]) == 3]
+            progs += list(programs(k, 2, consts, nb, True))
+            progs += [p for p in programs(k, 3, consts, nb, False) if len(p[1]) + len(p[2]) == 3]
             progs += [p for p in programs(k, 4, (0, 1), 3, False) if len(p[1]) + len(p[2]) == 4 and len(p[1]) >= k
                       and (len(p[1]) == 2 or len(p[3]) == 1)]
-    return progs, bounds
+        small = [p for k in (1, 2) for p in programs(k, 2, consts, nb, False)]
+        small += [p for p in programs(1, 3, (0, 1), 3, False) if len(p[1]) + len(p[2]) == 3 and p[1]]
+    twins = list(twin_programs(quick))
+    cases = [("main", (p,)) for p in progs + twins]
+    cases += [("costs", (p,)) for p in small]
+    # two functions in one module: P = every 1-argument program with <= 2 ops, Q = those made of one constant and one
+    # binary op (the constant a rule may want to create lives in the OTHER function); both orders
+    one = [p for p in programs(1, 2, consts, nb, False)]
+    withc = [p for p in one if len(p[1]) == 1 and len(p[2]) == 1]
+    seen = set()
+    for P in one:
+        for Q in withc:
+            for pair in ((P, Q), (Q, P)):
+                if pair not in seen:
+                    seen.add(pair)
+                    cases.append(("pairs", pair))
+    bounds["families"] = {"main": len(progs), "property-twins (in main)": len(twins), "costs": len(small),
+                          "pairs": len(seen)}
+    bounds["cost_files"] = sorted(G.get("costs", {}))
+    return cases, bounds
 
 
 def run(ctx):
     st0 = Stats()
     prepare(st0)
-    progs, bounds = enumerate_programs(ctx.quick)
-    G["programs"] = progs
+    G["costs"] = cost_configs(ctx.quick)
+    G["reversed_in_main"] = not ctx.quick
+    for name in G["costs"]:
+        cost_file(name)
+    cases, bounds = enumerate_programs(ctx.quick)
+    G["programs"] = cases
     ctx.merge(st0)
     step = 8
-    tasks = [(lo, min(len(progs), lo + step), ctx.seed) for lo in range(0, len(progs), step)]
-    for _, st in pmap(_shard, tasks):
-        ctx.merge(st)
-    bounds.update({"programs": len(progs), "type": "i32", "boundary_inputs_per_argument": list(BOUNDARY),
+    tasks = [(lo, min(len(cases), lo + step), ctx.seed) for lo in range(0, len(cases), step)]
+    try:
+        for _, st in pmap(_shard, tasks):
+            ctx.merge(st)
+    finally:
+        cleanup()
+    bounds.update({"cases": len(cases), "type": "i32", "boundary_inputs_per_argument": list(BOUNDARY),
                    "sound_rules": sorted(G["rules"]), "rule_sets": len(G["sets"]), "max_iterations": list(G["caps"]),
                    "matchers": sorted({f"{v}" for s in G["sets"].values() for v in s["matchers"]})})
     ctx.bounds = bounds
-    ctx.rule = ("every program of the bounded shape x {identity, no-costs, PROBE: every sound corpus rule whose root op "
-                "occurs in the program at max_iterations=1, FULL: every rule / pair of rules one of which matches the source "
-                "syntactically x matcher (native conversion, shipped) x max_iterations 1..3} x every boundary input tuple on "
-                "which the source is defined; states = programs, transitions = pass applications, executions = pipelines that "
-                "ran to completion and were judged; non-trivial = a pipeline run in which a rule fired (the e-graph after "
-                "apply-eqsat-pdl-interp differs in size from the one create-eclasses built)")
+    ctx.rule = ("family main: every program of the bounded shape (plus the property-twin programs: two arith.cmpi equal up "
+                "to the predicate on shared operands behind an identity) x {identity, no-costs, PROBE: every sound corpus "
+                "rule whose root op occurs in the program at max_iterations=1, FULL: every rule / pair of rules one of which "
+                "matches the source syntactically x matcher (native conversion [thorough: also the reversed pattern order at max_iterations 3], shipped) x "
+                "max_iterations 1..3}, costs default=1; family costs: every program with <= 2 ops x {identity, FULL sets, "
+                "both pattern orders, max_iterations 3} x every cost file; family pairs: two-function modules (P, Q) x "
+                "{identity, FULL sets at max_iterations 3}; each x every boundary input tuple on which the source is defined. "
+                "states = cases, transitions = pass applications, executions = pipelines that ran to completion and were "
+                "judged; non-trivial = a pipeline run in which a rule fired (the e-graph after apply-eqsat-pdl-interp "
+                "differs in size from the one create-eclasses built)")
     ctx.assumptions = [
         "mc/refsem.py implements the MLIR semantics of func/arith (self test: python -m mc.refsem)",
         "a rule is sound if lhs ⊑ rhs (rhs defined and equal wherever lhs is defined) on the dense i32 grid "
@@ -972,14 +1164,20 @@ def run(ctx):
         "(violations only without rules), built-in Python exceptions and non-verifying pass outputs are violations",
         "if no rule of a set matches the source syntactically the set is not run beyond the single-rule probes "
         "(iteration 1 finds nothing, the loop exits)",
+        "cost files are always combined with default=1 (ops the file does not name cost 1); zero costs are legal values",
     ]
 
 
 def replay(rep) -> bool:
     w = rep["witness"]
     prepare()
-    spec = (w["spec"][0], tuple(w["spec"][1]), tuple(tuple(b) for b in w["spec"][2]), tuple(w["spec"][3]))
+    G["costs"] = cost_configs(False)
+    raw = w["specs"] if "specs" in w else [w["spec"]]
+    specs = tuple((sp[0], tuple(sp[1]), tuple(tuple(b) for b in sp[2]), tuple(sp[3])) for sp in raw)
     pipe = tuple(w["pipeline"])
     st = Stats()
-    check_program(st, spec, only=pipe)
+    try:
+        check_program(st, ("replay", specs), only=pipe)
+    finally:
+        cleanup()
     return rep["signature"] not in st.violations
